@@ -119,6 +119,16 @@ fn extract_fn_signatures_from_fixpoint<'a>(
                     .get_mut(state.get_current_function_tid())
                     .unwrap();
                 fn_sig.merge_with_fn_sig_of_state(state);
+                if let Node::BlkEnd(block, _) = graph[node] {
+                    // The accesses of jump instructions are only recorded in the states of their targets,
+                    // so we have to add them here for jumps without a target in the graph.
+                    let context = fixpoint.get_context().get_context();
+                    for jump in block.term.jmps.iter() {
+                        fn_sig.merge_with_fn_sig_of_state(
+                            &context.get_state_after_jump_accesses(state, jump),
+                        );
+                    }
+                }
             }
             Some(NodeValue::CallFlowCombinator {
                 call_stub,
